@@ -403,6 +403,41 @@ fn sc_declared_list<T: BT>(env: &Env, rep: &mut Report, name: &str) {
     declared_outcome(rep, "record", "Rec", "one-field", crossed, refused, true);
 }
 
+/// A record / enum the script declares under the name of a primitive or of a registered type
+/// (`record u32 { x: u64 }`, `enum W4 { A, B(u64) }`), asked for as that Rust type: the `Leaf` and
+/// `Val` arms of the gate. A value handed through an identity function must come back as sent.
+fn sc_declared_leaf<T: BT>(env: &Env, rep: &mut Report, name: &str) {
+    let d = T::desc();
+    let n = d.roto();
+    for (shape, decl) in [("record", "record {N} { x: u64 }"), ("record-wide", "record {N} { x: u64, y: u64, z: u8 }"), ("enum", "enum {N} { A, B(u64) }")] {
+        let src = format!("{decl}\nfn id(r: {n}) -> {n} {{ r }}\nfn twice(r: {n}) -> {n} {{ let a = r; a }}\n", decl = decl.replace("{N}", &n));
+        let Some(mut pkg) = declared_compile(&src) else {
+            declared_outcome(rep, "leaf", &n, shape, 0, 0, false);
+            continue;
+        };
+        let (mut crossed, mut refused) = (0, 0);
+        let mut p = Prng::for_case(env.seed, h64(name));
+        for func in ["id", "twice"] {
+            match pkg.get_function::<fn(T) -> T>(func) {
+                Ok(f) => {
+                    crossed += 1;
+                    for k in 0..env.rounds {
+                        let v = T::gen_val(&mut p, k);
+                        let (want, got) = (v.show(), f.call(v.clone()).show());
+                        rep.evaluations += 1;
+                        if got != want {
+                            declared_violation(rep, name, "leaf", shape, func, &d, &src, v.show(), got, want);
+                            return;
+                        }
+                    }
+                }
+                Err(_) => refused += 1,
+            }
+        }
+        declared_outcome(rep, "leaf", &n, shape, crossed, refused, true);
+    }
+}
+
 /// Class representatives: they run first, with a fixed seed.
 fn declared_cases(cases: &mut Vec<Case>) {
     fn rep1<T: BT>(scen: &str, run: Run) -> Case {
@@ -413,6 +448,8 @@ fn declared_cases(cases: &mut Vec<Case>) {
         cases.push(rep1::<$t>("list", sc_declared_list::<$t>));
     )* } }
     one!(u32; u8; u64; bool; f64; IpAddr; RotoString; Val<W4>; Val<Hs>);
+    macro_rules! leaf { ($($t:ty);* $(;)?) => { $( cases.push(rep1::<$t>("leaf", sc_declared_leaf::<$t>)); )* } }
+    leaf!(u32; u8; i64; bool; f64; char; Asn; IpAddr; Prefix; RotoString; Val<Z0>; Val<W4>; Val<X16>; Val<Hs>);
     macro_rules! two { ($(($t:ty, $e:ty));* $(;)?) => { $(
         cases.push(rep1::<Result<$t, $e>>("result", sc_declared_result::<$t, $e>));
         cases.push(rep1::<Verdict<$t, $e>>("verdict", sc_declared_verdict::<$t, $e>));
